@@ -217,6 +217,7 @@ func (r *simReader) Read(p []byte) (int, error) {
 		if r.pos >= limit {
 			r.Stalled = true
 			simrt.BlockForever("stub:0:reader-stalled@caller's io.Reader")
+			return 0, errors.New("reader stub: released after the end of the simulated run")
 		}
 	}
 	if r.pos >= limit {
@@ -321,6 +322,7 @@ func (w *simWriter) Write(p []byte) (int, error) {
 	if w.plan.Stall && idx == w.plan.FailAt {
 		w.Stalled = true
 		simrt.BlockForever("stub:0:writer-stalled@caller's io.Writer")
+		return 0, errors.New("writer stub: released after the end of the simulated run")
 	}
 	if w.plan.Short && idx == w.plan.FailAt && len(p) > 1 {
 		// a writer that breaks the io.Writer contract: short count, nil error
